@@ -401,10 +401,12 @@ fn main() {
             }
         }
         "live" => {
+            // number of client appends per simulated cluster: 1..=max_appends
+            let max_appends: u64 = arg(&args, "--max-appends", "3").parse().unwrap();
             for c in 0..n {
                 let size = if c % 4 == 3 { 5 } else { 3 };
                 let mut r = rng.fork();
-                let appends = 1 + r.below(3) as usize;
+                let appends = 1 + r.below(max_appends.max(1)) as usize;
                 vclock::set_now_ms(1 << 40);
                 let (evs, data, fin) = live_case(&mut r, size, appends);
                 // replay the recorded abstract event list with forced timers: same observations expected
